@@ -507,7 +507,162 @@ def rule_raw_quotes(ctx: Ctx) -> None:
     ctx.min_instances("quoted_interpolations", n, 8)
 
 
-RULES = [rule_anchor, rule_tables, rule_funnel, rule_delegation, rule_comments, rule_raw_quotes]
+ALIAS_TEXT = {"alias_or_name", "alias", "output_name"}
+REVIEWED_REBUILT_IDENTIFIERS: dict[tuple[str, str], str] = {
+    ("sqlglot.generator:Generator._update_from_joins_sql", "exp.to_identifier(target_table.alias_or_name)"):
+        "reached only for dialects without UPDATE ... FROM (the MySQL family), whose generators quote reserved words themselves and do not fold case: probed with tables named "
+        "\"select\", \"from\" and \"Tbl\" — the qualifier is written `select` / `from` / Tbl and re-parses to the same name",
+    ("sqlglot.generator:Generator.pivotalias_sql", "exp.to_identifier(alias.output_name)"):
+        "under `literal_alias`: the alias is a string literal there, not an identifier, so there is no quoted flag to carry; to_identifier quotes unsafe text itself",
+}
+
+
+def rule_rebuilt_identifiers(ctx: Ctx) -> None:
+    ctx.rule("C04.R10", "an identifier rebuilt from another identifier's text keeps its quoting: in generator-time code (generator modules, transforms, dialect helpers) a call of "
+                        "exp.column / exp.to_identifier / exp.Identifier whose name argument is the alias text of an existing node (<node>.alias_or_name / .alias / .output_name, "
+                        "directly or through a local) passes `quoted=` — without it the quoting is re-derived from the characters alone and a reserved word or a case-sensitive "
+                        "name is written bare, i.e. as a different token")
+    BUILDERS = {"exp.column", "exp.to_identifier", "exp.Identifier", "to_identifier", "column"}
+    probe = ast.parse("def f(e):\n    n = e.alias_or_name\n    return exp.column(n)\n").body[0]
+
+    def scan(fn: ast.AST) -> list[tuple[ast.Call, ast.AST]]:
+        local: dict[str, ast.AST] = {}
+        for st in ast.walk(fn):
+            if isinstance(st, ast.Assign) and len(st.targets) == 1 and isinstance(st.targets[0], ast.Name) and isinstance(st.value, ast.Attribute) and st.value.attr in ALIAS_TEXT:
+                local.setdefault(st.targets[0].id, st.value)
+        out = []
+        for c in ast.walk(fn):
+            if isinstance(c, ast.Call) and norm(c.func) in BUILDERS:
+                args = list(c.args[:1]) + [k.value for k in c.keywords if k.arg in ("this", "col", "name")]
+                if not args:
+                    continue
+                a = args[0]
+                src = a if isinstance(a, ast.Attribute) and a.attr in ALIAS_TEXT else local.get(a.id) if isinstance(a, ast.Name) else None
+                if src is not None:
+                    out.append((c, src))
+        return out
+
+    ctx.require(len(scan(probe)) == 1, "positive control failed: identifier rebuilt from alias text not recognised")
+    n = 0
+    for f in ctx.repo.all_funcs():
+        m = f.module
+        if not (m.name.startswith(("sqlglot.generator", "sqlglot.generators.")) or m.name in ("sqlglot.transforms", "sqlglot.dialects.dialect")):
+            continue
+        if ".<locals>." in f.qualname:
+            continue  # scanned with the enclosing function
+        for c, src in scan(f.node):
+            n += 1
+            txt = norm(c, 90)
+            if any(k.arg == "quoted" for k in c.keywords):
+                ctx.ok(f"{f.key}|{txt}", {"call": txt, "quoted": "passed"})
+            elif (f.key, txt) in REVIEWED_REBUILT_IDENTIFIERS:
+                ctx.ok(f"{f.key}|{txt}", {"call": txt, "reviewed": REVIEWED_REBUILT_IDENTIFIERS[(f.key, txt)]})
+            else:
+                ctx.fail(m, c, f.key, c, f"`{txt}` rebuilds an identifier from `{norm(src)}` without `quoted=`: a quoted reserved word (\"from\") or case-sensitive name (\"MixedCase\") is "
+                                         f"written bare by the generator and is read back as a keyword or as a different name")
+    ctx.count("identifiers_rebuilt_from_alias_text", n)
+    ctx.min_instances("identifiers_rebuilt_from_alias_text", n, 3)
+
+
+def _safe_re_facts(pattern: str) -> tuple[set[str], bool, bool]:
+    """(literal characters the pattern admits besides word characters, anchored at the very end?, recognised?)"""
+    import re._parser as sre  # type: ignore[import-not-found]
+    import re._constants as sc  # type: ignore[import-not-found]
+
+    extra: set[str] = set()
+    end_ok = False
+    recognised = True
+    parsed = sre.parse(pattern)
+    items = list(parsed)
+    for op, av in items:
+        if op is sc.AT:
+            if av is sc.AT_END_STRING:
+                end_ok = True
+            elif av is sc.AT_END:
+                end_ok = False
+            continue
+        sets = []
+        if op is sc.IN:
+            sets = [av]
+        elif op in (sc.MAX_REPEAT, sc.MIN_REPEAT):
+            for op2, av2 in av[2]:
+                if op2 is sc.IN:
+                    sets.append(av2)
+                elif op2 is sc.LITERAL:
+                    extra.add(chr(av2))
+                else:
+                    recognised = False
+        elif op is sc.LITERAL:
+            extra.add(chr(av))
+        else:
+            recognised = False
+        for st in sets:
+            for k, v in st:
+                if k is sc.LITERAL:
+                    extra.add(chr(v))
+                elif k is sc.RANGE:
+                    lo, hi = v
+                    for ch in range(lo, hi + 1):
+                        extra.add(chr(ch))
+                elif k is sc.CATEGORY:
+                    if v is not sc.CATEGORY_WORD and v is not sc.CATEGORY_DIGIT:
+                        recognised = False
+                else:
+                    recognised = False
+    extra = {c for c in extra if not (c.isalnum() or c == "_")}
+    return extra, end_ok, recognised
+
+
+def rule_safe_identifier(ctx: Ctx) -> None:
+    ctx.rule("C04.R11", "what the builders call a safe bare word is a bare word for every tokenizer: SAFE_IDENTIFIER_RE (it decides whether to_identifier / exp.column quote a name) "
+                        "admits only letters, digits and `_` plus characters that no dialect's tokenizer treats specially (single tokens, keyword symbols, delimiters), and is "
+                        "anchored at the very end of the string (`\\Z`, or used with fullmatch) — `$` matches before a trailing line break")
+    m = ctx.repo.module("sqlglot.expressions.core")
+    pat = None
+    node = None
+    for st in m.tree.body:
+        tg = st.target if isinstance(st, ast.AnnAssign) else st.targets[0] if isinstance(st, ast.Assign) and len(st.targets) == 1 else None
+        if isinstance(tg, ast.Name) and tg.id == "SAFE_IDENTIFIER_RE" and isinstance(getattr(st, "value", None), ast.Call) and st.value.args and isinstance(st.value.args[0], ast.Constant):
+            pat, node = st.value.args[0].value, st
+    ctx.require(isinstance(pat, str), "anchor vanished: SAFE_IDENTIFIER_RE = re.compile(<literal>) in sqlglot/expressions/core.py")
+    ctx.require(_safe_re_facts(r"^[_a-zA-Z][\w$]*$")[0] == {"$"} and not _safe_re_facts(r"^[_a-zA-Z][\w]*$")[1] and _safe_re_facts(r"^[_a-zA-Z][\w]*\Z")[1],
+                "positive control failed: regex facts")
+    extra, end_ok, recognised = _safe_re_facts(pat)
+    if not recognised:
+        ctx.ok("SAFE_IDENTIFIER_RE|not decided: pattern uses constructs this rule does not model", {"pattern": pat})
+        return
+    fx = facts(ctx.repo)
+    special: dict[str, list[str]] = {}
+    for dn, d in fx["dialects"].items():
+        tok = d["tok"]
+        chars = set()
+        for tbl in ("SINGLE_TOKENS", "KEYWORDS"):
+            for k in tok.get(tbl) or {}:
+                if not k.replace("_", "").replace(" ", "").isalnum():
+                    chars |= {c for c in k if not (c.isalnum() or c in "_ ")}
+        for tbl in ("_QUOTES", "_IDENTIFIERS", "_COMMENTS", "_FORMAT_STRINGS"):
+            v = tok.get(tbl) or {}
+            for k, e in v.items():
+                for txt in (k, e if isinstance(e, str) else (e[0] if isinstance(e, list) and e and isinstance(e[0], str) else "")):
+                    chars |= {c for c in (txt or "") if not (c.isalnum() or c == "_")}
+        for c in chars:
+            special.setdefault(c, []).append(dn or "base")
+    bad = sorted(c for c in extra if c in special)
+    if bad:
+        for c in bad:
+            ctx.fail(m, node, "sqlglot.expressions.core:SAFE_IDENTIFIER_RE", f"SAFE_IDENTIFIER_RE admits {c!r}",
+                     f"SAFE_IDENTIFIER_RE = {pat!r} lets {c!r} through as part of a bare word, but the tokenizers of {', '.join(sorted(special[c])[:6])} ... treat it as a token or "
+                     f"delimiter of its own: a name containing it is written unquoted and read back as several tokens")
+    else:
+        ctx.ok("SAFE_IDENTIFIER_RE|alphabet", {"pattern": pat, "extra_characters": sorted(extra)})
+    if end_ok:
+        ctx.ok("SAFE_IDENTIFIER_RE|anchored at the very end", {"pattern": pat})
+    else:
+        ctx.fail(m, node, "sqlglot.expressions.core:SAFE_IDENTIFIER_RE", "SAFE_IDENTIFIER_RE is not anchored with \\Z",
+                 f"SAFE_IDENTIFIER_RE = {pat!r} is used with .match(): without `\\Z` a name with a trailing line break counts as a safe bare word, is written unquoted and read back without it")
+
+
+RULES = [rule_anchor, rule_tables, rule_funnel, rule_delegation, rule_comments, rule_raw_quotes, rule_rebuilt_identifiers, rule_safe_identifier]
 EXPLANATION = (
     "Writer/reader table agreement decided exhaustively for every dialect class: the generator's escaping tables "
     "(QUOTE_END, STRING_ESCAPES[0], ESCAPED_SEQUENCES, identifier doubling and identifier_sql's constant replacements) "
